@@ -213,7 +213,9 @@ void ThreePointsNumericalDerivative::updateDerivatives(const ParameterList& para
       function1_->enableFirstOrderDerivatives(computeD1_);
     if (function2_)
       function2_->enableSecondOrderDerivatives(computeD2_);
-    if (functionChanged)
+    if (computeCrossD2_)
+      function_->setParameters(parameters); // cross derivatives leave several variables shifted
+    else if (functionChanged)
       function_->setParameters(parameters.createSubList(lastVar));
   }
   else
